@@ -105,6 +105,9 @@ def pCtx : P Ctx := do
   | "smfixed" => do
     let sc ← pInt; let nb ← pNat; let rm ← pRM; let ov ← pOV; let k ← pOptNat; let nv ← pOptFV; let iv ← pOptFV
     pure (Ctx.smfixed sc nb rm ov k nv iv)
+  | "exp" => do
+    let nb ← pNat; let eo ← pInt; let rm ← pRM; let ov ← pOV; let iv ← pOptFV
+    pure (.exp { nbits := nb, eoff := eo, rm := rm, ov := ov, infValue := iv })
   | _ => throw s!"ctx:{t}"
 
 /-- decode an IEEE binary64 bit pattern as `Float.from_float` does -/
